@@ -1,5 +1,5 @@
 """Registry: property id -> check function(ctx) -> exit code."""
-from checks import tracker, sshdfam, sshdproc
+from checks import tracker, sshdfam, sshdproc, conc, healthchk
 
 
 def _tracker(prop):
@@ -31,3 +31,19 @@ def _c05(ctx):
 
 
 REGISTRY["C05"] = _c05
+
+
+def _c03(ctx):
+    cov = conc.run(ctx)
+    return ctx.finish("model_checking", cov, conc.ASSUME)
+
+
+REGISTRY["C03"] = _c03
+
+
+def _c18(ctx):
+    cov = healthchk.run(ctx)
+    return ctx.finish("model_checking", cov, healthchk.ASSUME)
+
+
+REGISTRY["C18"] = _c18
